@@ -68,6 +68,8 @@ def call_value(it, f, args, kwargs, fr, node, dotted):
     ctx = it.ctx
     if isinstance(f, VFunc):
         return call_vfunc(it, f, args, kwargs, node)
+    if isinstance(f, VSpecFn):
+        return f.fn(it, *args, **kwargs)
     if isinstance(f, VBound):
         if f.func is None:
             return call_method_builtin(it, f.recv, f.name, args, kwargs, fr, node)
@@ -196,6 +198,7 @@ def call_vfunc(it, f, args, kwargs, node=None):
     fr = Frame(parent.globs, locs, parent if f.module is None or parent.qualname != '<module>' else None, contract, f.module or parent.module, f.name)
     if isinstance(fn, ast.Lambda):
         return it.eval(fn.body, fr)
+    fr.fnode = fn
     ctx.depth += 1
     try:
         if _is_generator(fn) and not getattr(f, 'as_generator_inline', False):
@@ -461,9 +464,13 @@ def make_elem(it, spec, name, i):
         for fname, fspec in spec.fields.items():
             o.fields[fname] = make_elem(it, fspec, f'{name}.{fname}', i)
         o.fields['id!'] = z3.Function(f'{name}!id', I, I)(to_z3(i))
+        o.fields['idx!'] = i
+        o.fields['seq!'] = name
         return o
     if k == 'const':
         return _wrap_const(spec.value)
+    if k == 'tuple':
+        return VTuple([make_elem(it, s_, f'{name}.{n}', i) for n, s_ in enumerate(spec.elem)])
     raise Unsupported(f'sequence element spec {k}')
 
 
